@@ -67,3 +67,29 @@ Print Assumptions C10_hash_cover.
 
 Example C10_ex : count_filter 2 3 0 [1; 2; 3; 4; 5; 6; 7] = [2; 5].
 Proof. reflexivity. Qed.
+
+(* WHAT a selection selects (proofs/SelectionFacts.v): --builders gives exactly the named builders, one per name, in
+   command-line order; --apps / local mode give exactly the binaries whose name is selected and — in local mode — whose
+   directory is the start directory; and every configured build of a run is the configuration of such a pair: no build
+   outside the --builders / --apps / local-mode selection. *)
+Require Import Laze.proofs.SelectionFacts.
+Theorem C10_builders_exactly_named : forall b l bs, selected_builders b (SelSome l) = Ok bs ->
+  Forall2 (fun n i => bag_index b n = Some i /\ exists c, bag_get b i = Some c /\ c_is_builder c = true) (nodup_str l) bs.
+Proof. exact selected_builders_named. Qed.
+Print Assumptions C10_builders_exactly_named.
+
+Theorem C10_apps_exactly_selected : forall b apps local bins, selected_bins b apps local = Ok bins ->
+  forall m, In m bins <->
+    In m (all_modules b) /\ m_is_binary m = true /\ selects apps (m_name m) = true /\
+    match local with None => True | Some dir => exists r, m_relpath m = Some r /\ Path.path_eq r dir = true end.
+Proof. exact selected_bins_spec. Qed.
+Print Assumptions C10_apps_exactly_selected.
+
+Theorem C10_no_build_outside_the_selection :
+  forall H EV b le bsel asel local part select disable cli_env g,
+  generate H EV b le bsel asel local part select disable cli_env = Ok g ->
+  exists bs bins, selected_builders b bsel = Ok bs /\ selected_bins b asel local = Ok bins /\
+    forall info, In info (gr_builds g) ->
+      exists i m es, In i bs /\ In m bins /\ configure_build H EV b le i m select disable cli_env = Ok (Built info es).
+Proof. exact builds_within_selection. Qed.
+Print Assumptions C10_no_build_outside_the_selection.
